@@ -170,6 +170,11 @@ func (t *fnTrans) call(ins ssa.Instruction, c *ssa.CallCommon, res ssa.Value) {
 		bindResults(env, ct, sig, rv)
 	}
 	t.applyModifies(ct, env, oldSt)
+	for _, g := range ct.GhostOut {
+		t.eng.heapSort["G."+g] = "(Array Int Int)"
+		t.heapGet(t.st, "G."+g, "(Array Int Int)")
+		t.heapHavoc(t.st, "G."+g, "(Array Int Int)")
+	}
 	// allocation may have happened
 	if !ct.Pure {
 		oldTop := t.top(oldSt)
@@ -596,6 +601,10 @@ func (t *fnTrans) callEffects(c *ssa.CallCommon, mods map[string]bool) {
 	if lk := ct.Flags["lock"]; lk != "" {
 		mods["$held"] = true
 	}
+	for _, g := range ct.GhostOut {
+		mods["G."+g] = true
+		t.eng.heapSort["G."+g] = "(Array Int Int)"
+	}
 }
 
 // locHeapNames: static over-approximation of the heap names a location touches.
@@ -864,7 +873,7 @@ func (t *fnTrans) frameCheck(x *ssa.Return, env *specEnv) {
 	sortStrings(names)
 	for _, hn := range names {
 		cur := t.st.heaps[hn]
-		if hn == "$top" || hn == "$held" || strings.HasPrefix(hn, "CL.") {
+		if hn == "$top" || hn == "$held" || strings.HasPrefix(hn, "CL.") || strings.HasPrefix(hn, "G.") {
 			continue
 		}
 		hs := t.eng.heapSort[hn]
@@ -929,6 +938,23 @@ func splitConj(x ast.Expr) []ast.Expr {
 				out = append(out, &ast.CallExpr{Fun: id, Args: []ast.Expr{n.Args[0], c}})
 			}
 			return out
+		}
+		// forall(lo, hi, func(j int) bool { return A && B }) -> forall(.. A), forall(.. B)
+		if id, ok := n.Fun.(*ast.Ident); ok && id.Name == "forall" && len(n.Args) == 3 {
+			if fl, ok := n.Args[2].(*ast.FuncLit); ok && len(fl.Body.List) == 1 {
+				if rs, ok := fl.Body.List[0].(*ast.ReturnStmt); ok && len(rs.Results) == 1 {
+					parts := splitConj(rs.Results[0])
+					if len(parts) > 1 {
+						var out []ast.Expr
+						for _, c := range parts {
+							nf := &ast.FuncLit{Type: fl.Type, Body: &ast.BlockStmt{List: []ast.Stmt{&ast.ReturnStmt{Results: []ast.Expr{c}}}}}
+							args := append([]ast.Expr{n.Args[0], n.Args[1], nf}, n.Args[3:]...)
+							out = append(out, &ast.CallExpr{Fun: id, Args: args})
+						}
+						return out
+					}
+				}
+			}
 		}
 	}
 	return []ast.Expr{x}
